@@ -2,3 +2,5 @@
 pub mod flpkit;
 pub mod ints;
 pub mod vdafkit;
+pub mod flpexh;
+pub mod prio3spec;
